@@ -194,7 +194,7 @@ def anchors():
 def large_enumerate(tier, shard, nshards):
     from ..runner import shard_iter
 
-    return shard_iter(({"size": n} for n in (65519, 65520, 65535, 65536, 65537, 100000, 1048576 + 5)), shard, nshards)
+    return shard_iter(({"size": n} for n in (65519, 65520, 65535, 65536, 65537, 100000, 131072, 1048576 - 16, 1048576, 1048576 + 5, 2097152, 3145728)), shard, nshards)
 
 
 def large_execute(case, stats):
